@@ -6,6 +6,7 @@ package main
 // (Storage/Mem.v, Storage/Kube.v, Storage/Spec.v) through Run/RunC10.v.
 
 import (
+	"context"
 	"encoding/json"
 	"errors"
 	"fmt"
@@ -14,6 +15,9 @@ import (
 	"strings"
 	"time"
 
+	v1 "k8s.io/api/core/v1"
+	apierrors "k8s.io/apimachinery/pkg/api/errors"
+	metav1 "k8s.io/apimachinery/pkg/apis/meta/v1"
 	"k8s.io/client-go/kubernetes/fake"
 
 	chart "helm.sh/helm/v4/pkg/chart/v2"
@@ -38,11 +42,16 @@ type c10Rel struct {
 }
 
 type c10Op struct {
-	Kind  string            `json:"op"` // create update get delete list query
-	Rel   *c10Rel           `json:"rel,omitempty"`
-	Name  string            `json:"name,omitempty"`
-	Ver   int               `json:"ver,omitempty"`
-	Query map[string]string `json:"query,omitempty"`
+	// create update get delete list query; and two events outside the driver interface:
+	// corrupt (Secret/ConfigMap backends: an object with an undecodable body appears under the
+	// key of Name/Ver, labelled name/owner/status/version) and setns (memory: SetNamespace(NS))
+	Kind   string            `json:"op"`
+	Rel    *c10Rel           `json:"rel,omitempty"`
+	Name   string            `json:"name,omitempty"`
+	Ver    int               `json:"ver,omitempty"`
+	Query  map[string]string `json:"query,omitempty"`
+	Status string            `json:"status,omitempty"`
+	NS     string            `json:"ns,omitempty"`
 }
 
 type c10Case struct {
@@ -67,7 +76,8 @@ func (*c10) CoqImport() string { return "From Helm Require Import Storage.Spec R
 func (*c10) Rule() string {
 	return "call sequences (length 4-25) of create/update/get/delete/list/query over 3 names x 4 revisions " +
 		"(names plain, dotted, containing '.v', '.v<digits>'-suffixed, 53 characters) on the real memory/Secret/ConfigMap " +
-		"drivers, plus rich-content round trips; non-trivial = at least one successful write and one read/query " +
+		"drivers (one case in four also with SetNamespace + two namespaces on memory, or records damaged behind the driver on Secret/ConfigMap), plus rich-content round trips, plus every sequence of length <= 2 (quick) / <= 3 (thorough) over a " +
+		"22-call alphabet on 2 names x 2 revisions per backend; non-trivial = at least one successful write and one read/query " +
 		"that returned a release; distinct = hash of (case, observation)"
 }
 func (*c10) Corpus() []any {
@@ -87,7 +97,65 @@ func (*c10) Corpus() []any {
 	}
 	return out
 }
-func (*c10) Exhaustive(string) []any { return nil }
+// Exhaustive: every call sequence up to a length bound over the key space {app, a.v1} x {1, 2}
+// on each backend (quick: length <= 2; thorough: length <= 3).  The alphabet has one create
+// and one update per key (different status and content), get and delete per key, list, and
+// five queries (by name, by status, by name+version, by owner); in the thorough tier also
+// SetNamespace("") / SetNamespace("team-a") / a create in a second namespace (memory) and two
+// damaged records (Secret/ConfigMap).
+func (*c10) Exhaustive(tier string) []any {
+	names := []string{"app", "a.v1"}
+	var alpha []c10Op
+	for _, n := range names {
+		for v := 1; v <= 2; v++ {
+			alpha = append(alpha,
+				c10Op{Kind: "create", Rel: &c10Rel{Name: n, NS: "default", Ver: v, Status: "deployed", Body: uint64(v)}},
+				c10Op{Kind: "update", Rel: &c10Rel{Name: n, NS: "default", Ver: v, Status: "superseded", Body: uint64(2 + v), Labels: map[string]string{"team": "a"}}},
+				c10Op{Kind: "get", Name: n, Ver: v},
+				c10Op{Kind: "delete", Name: n, Ver: v})
+		}
+	}
+	alpha = append(alpha, c10Op{Kind: "list"},
+		c10Op{Kind: "query", Query: map[string]string{"name": "app"}},
+		c10Op{Kind: "query", Query: map[string]string{"name": "a.v1", "owner": "helm"}},
+		c10Op{Kind: "query", Query: map[string]string{"status": "deployed"}},
+		c10Op{Kind: "query", Query: map[string]string{"name": "app", "version": "1"}},
+		c10Op{Kind: "query", Query: map[string]string{"owner": "helm"}})
+	maxLen := 2
+	if tier == "thorough" {
+		maxLen = 3
+	}
+	var out []any
+	for _, b := range []string{"memory", "secret", "configmap"} {
+		alpha := alpha
+		if tier == "thorough" {
+			// the events outside the driver interface join the alphabet
+			if b == "memory" {
+				alpha = append(append([]c10Op(nil), alpha...),
+					c10Op{Kind: "setns", NS: ""}, c10Op{Kind: "setns", NS: "team-a"},
+					c10Op{Kind: "create", Rel: &c10Rel{Name: "app", NS: "team-a", Ver: 1, Status: "failed", Body: 5}})
+			} else {
+				alpha = append(append([]c10Op(nil), alpha...),
+					c10Op{Kind: "corrupt", Name: "app", Ver: 1, Status: "deployed"},
+					c10Op{Kind: "corrupt", Name: "a.v1", Ver: 2, Status: "superseded"})
+			}
+		}
+		var rec func(prefix []c10Op)
+		rec = func(prefix []c10Op) {
+			if len(prefix) > 0 {
+				out = append(out, c10Case{Backend: b, Ops: append([]c10Op(nil), prefix...)})
+			}
+			if len(prefix) == maxLen {
+				return
+			}
+			for _, o := range alpha {
+				rec(append(prefix, o))
+			}
+		}
+		rec(nil)
+	}
+	return out
+}
 
 var c10Names = []string{"app", "my.app", "a.v1", "svc.v2.beta", "x.v", strings.Repeat("n", 49) + ".v12"}
 var c10Statuses = []string{"deployed", "superseded", "failed", "pending-install", "uninstalled", "unknown", "pending-upgrade"}
@@ -101,12 +169,26 @@ func (*c10) Generate(r *rand.Rand, _ int) any {
 	if r.Intn(4) == 0 {
 		ns = "team-a"
 	}
+	// one case in four leaves the driver interface proper: memory cases write to two namespaces
+	// and call SetNamespace; Secret/ConfigMap cases have records damaged behind the driver's back
+	ext := r.Intn(4) == 0
 	n := 4 + r.Intn(22)
 	for i := 0; i < n; i++ {
 		name := names[r.Intn(3)]
 		ver := 1 + r.Intn(4)
+		if ext && r.Intn(9) == 0 {
+			if c.Backend == "memory" {
+				c.Ops = append(c.Ops, c10Op{Kind: "setns", NS: []string{"", "default", "team-a", "ghost"}[r.Intn(4)]})
+			} else {
+				c.Ops = append(c.Ops, c10Op{Kind: "corrupt", Name: name, Ver: ver, Status: c10Statuses[r.Intn(3)]})
+			}
+			continue
+		}
 		mkRel := func() *c10Rel {
 			rel := &c10Rel{Name: name, NS: ns, Ver: ver, Status: c10Statuses[r.Intn(len(c10Statuses))], Body: uint64(1 + r.Intn(40))}
+			if ext && c.Backend == "memory" {
+				rel.NS = []string{"default", "team-a", ""}[r.Intn(3)]
+			}
 			if r.Intn(3) == 0 {
 				rel.Labels = map[string]string{}
 				for k := 0; k <= r.Intn(3); k++ {
@@ -266,13 +348,36 @@ func (*c10) Execute(ci any) (res any) {
 		}
 	}()
 	var d driver.Driver
+	cs := fake.NewSimpleClientset()
 	switch c.Backend {
 	case "memory":
 		d = driver.NewMemory()
 	case "secret":
-		d = driver.NewSecrets(fake.NewSimpleClientset().CoreV1().Secrets("default"))
+		d = driver.NewSecrets(cs.CoreV1().Secrets("default"))
 	default:
-		d = driver.NewConfigMaps(fake.NewSimpleClientset().CoreV1().ConfigMaps("default"))
+		d = driver.NewConfigMaps(cs.CoreV1().ConfigMaps("default"))
+	}
+	// corrupt: put (create or replace) an object whose body is not a release under the key
+	corrupt := func(o c10Op) error {
+		key := c10Key(o.Name, o.Ver)
+		meta := metav1.ObjectMeta{Name: key, Labels: map[string]string{"name": o.Name, "owner": "helm", "status": o.Status, "version": fmt.Sprint(o.Ver)}}
+		ctx := context.Background()
+		if c.Backend == "secret" {
+			impl := cs.CoreV1().Secrets("default")
+			obj := &v1.Secret{ObjectMeta: meta, Type: "helm.sh/release.v1", Data: map[string][]byte{"release": []byte("!! not a release !!")}}
+			_, err := impl.Update(ctx, obj, metav1.UpdateOptions{})
+			if apierrors.IsNotFound(err) {
+				_, err = impl.Create(ctx, obj, metav1.CreateOptions{})
+			}
+			return err
+		}
+		impl := cs.CoreV1().ConfigMaps("default")
+		obj := &v1.ConfigMap{ObjectMeta: meta, Data: map[string]string{"release": "!! not a release !!"}}
+		_, err := impl.Update(ctx, obj, metav1.UpdateOptions{})
+		if apierrors.IsNotFound(err) {
+			_, err = impl.Create(ctx, obj, metav1.CreateOptions{})
+		}
+		return err
 	}
 	ids := map[string]uint64{}
 	for _, o := range c.Ops {
@@ -288,9 +393,9 @@ func (*c10) Execute(ci any) (res any) {
 		if len(r.Labels) > 0 {
 			x.Labels = map[string]string{}
 			for k, v := range r.Labels {
-				// time-stamp labels carry wall-clock values; kept out of the observation
+				// time-stamp labels carry wall-clock values: the key is observed, the value is not
 				if k == "createdAt" || k == "modifiedAt" {
-					continue
+					v = "0"
 				}
 				x.Labels[k] = v
 			}
@@ -305,6 +410,17 @@ func (*c10) Execute(ci any) (res any) {
 	for _, o := range c.Ops {
 		var out c10Out
 		switch o.Kind {
+		case "setns":
+			out = c10Out{Kind: "err", Err: "other"}
+			if m, ok := d.(*driver.Memory); ok {
+				m.SetNamespace(o.NS)
+				out = c10Out{Kind: "ok"}
+			}
+		case "corrupt":
+			out = c10Out{Kind: "err", Err: "other"}
+			if c.Backend != "memory" && corrupt(o) == nil {
+				out = c10Out{Kind: "ok"}
+			}
 		case "create":
 			if err := d.Create(c10Key(o.Rel.Name, o.Rel.Ver), c10Build(o.Rel)); err != nil {
 				out = c10Out{Kind: "err", Err: c10ErrClass(err)}
@@ -360,17 +476,46 @@ func (*c10) Execute(ci any) (res any) {
 	return obs
 }
 
-// Oracle: a reference map written independently of the Coq model.
+// Oracle: a reference map written independently of the Coq model.  Keys are (namespace, name,
+// revision); the Secret/ConfigMap drivers are bound to one namespace by their client, so their
+// namespace component is constant.  For the memory driver the reference follows the driver's
+// documented contract: Create/Update address the release's namespace and make it current,
+// Get/Delete address the current namespace, List/Query range over the current namespace or,
+// when it is "", over all.  A damaged record (corrupt) is not a stored release: the property
+// says nothing about calls that touch it except that they must not panic (C20), so those
+// calls are only checked for not reporting success with a wrong release.
 func (*c10) Oracle(ci, oi any) []hx.Violation {
 	c, obs := ci.(c10Case), oi.(c10Obs)
 	if obs.Panic != "" {
 		return []hx.Violation{{Sig: "C10:panic", What: "driver panicked: " + obs.Panic}}
 	}
 	type k struct {
-		n string
-		v int
+		ns, n string
+		v     int
 	}
-	ref := map[k]c10Rel{}
+	type entry struct {
+		rel c10Rel
+		bad bool   // damaged record
+		st  string // its status label
+	}
+	mem := c.Backend == "memory"
+	cur := "default"
+	nsOf := func(r *c10Rel) string {
+		if !mem {
+			return ""
+		}
+		if r.NS == "" {
+			return "default"
+		}
+		return r.NS
+	}
+	curKey := func(n string, v int) k {
+		if !mem {
+			return k{"", n, v}
+		}
+		return k{cur, n, v}
+	}
+	ref := map[k]entry{}
 	userLabels := func(m map[string]string) map[string]string {
 		o := map[string]string{}
 		for a, b := range m {
@@ -397,6 +542,18 @@ func (*c10) Oracle(ci, oi any) []hx.Violation {
 		}
 		return true
 	}
+	// Get/Delete read one release back: its label set must be the stored (user) label set itself
+	sameExact := func(a, b c10Rel) bool {
+		if !same(a, b) || len(a.Labels) != len(b.Labels) {
+			return false
+		}
+		for x, y := range a.Labels {
+			if z, ok := b.Labels[x]; !ok || z != y {
+				return false
+			}
+		}
+		return true
+	}
 	var vs []hx.Violation
 	bad := func(i int, what string) {
 		vs = append(vs, hx.Violation{Sig: "C10:" + strings.SplitN(what, ":", 2)[0], What: fmt.Sprintf("%s step %d (%s): %s", c.Backend, i, c.Ops[i].Kind, what)})
@@ -407,8 +564,19 @@ func (*c10) Oracle(ci, oi any) []hx.Violation {
 		}
 		got := obs.Outs[i]
 		switch o.Kind {
+		case "setns":
+			if mem {
+				cur = o.NS
+			}
+		case "corrupt":
+			if !mem && got.Kind == "ok" {
+				ref[k{"", o.Name, o.Ver}] = entry{bad: true, st: o.Status}
+			}
 		case "create":
-			key := k{o.Rel.Name, o.Rel.Ver}
+			if mem {
+				cur = nsOf(o.Rel)
+			}
+			key := k{nsOf(o.Rel), o.Rel.Name, o.Rel.Ver}
 			if _, ok := ref[key]; ok {
 				if got.Kind != "err" || got.Err != "exists" {
 					bad(i, "create-existing: creating an existing key did not fail with already-exists")
@@ -417,23 +585,32 @@ func (*c10) Oracle(ci, oi any) []hx.Violation {
 				if got.Kind != "ok" {
 					bad(i, "create-fresh: creating a fresh key failed")
 				}
-				ref[key] = *o.Rel
+				ref[key] = entry{rel: *o.Rel}
 			}
 		case "update":
-			key := k{o.Rel.Name, o.Rel.Ver}
+			if mem {
+				cur = nsOf(o.Rel)
+			}
+			key := k{nsOf(o.Rel), o.Rel.Name, o.Rel.Ver}
 			if _, ok := ref[key]; ok {
 				if got.Kind != "ok" {
 					bad(i, "update-present: updating a stored key failed")
 				}
-				ref[key] = *o.Rel
+				ref[key] = entry{rel: *o.Rel}
 			} else if got.Kind != "err" {
 				bad(i, "update-missing: updating a missing key did not fail")
 			}
 		case "get", "delete":
-			key := k{o.Name, o.Ver}
-			if want, ok := ref[key]; ok {
-				if got.Kind != "rel" || !same(*got.Rel, want) {
+			key := curKey(o.Name, o.Ver)
+			if want, ok := ref[key]; ok && want.bad {
+				if got.Kind != "err" {
+					bad(i, o.Kind+"-damaged: a record that does not decode was read back as a release")
+				}
+			} else if ok {
+				if got.Kind != "rel" || !same(*got.Rel, want.rel) {
 					bad(i, o.Kind+"-present: did not return the stored release")
+				} else if !sameExact(*got.Rel, want.rel) {
+					bad(i, o.Kind+"-labels: the release read back carries labels other than the stored user labels")
 				}
 				if o.Kind == "delete" {
 					delete(ref, key)
@@ -443,20 +620,31 @@ func (*c10) Oracle(ci, oi any) []hx.Violation {
 			}
 		case "list", "query":
 			var want []c10Rel
-			for _, r := range ref {
+			damagedMatch := false
+			for key, e := range ref {
+				if mem && cur != "" && key.ns != cur {
+					continue
+				}
+				m := map[string]string{"name": key.n, "owner": "helm", "status": e.rel.Status, "version": fmt.Sprint(key.v)}
+				if e.bad {
+					m["status"] = e.st
+				}
 				ok := true
 				for qk, qv := range o.Query {
-					m := map[string]string{"name": r.Name, "owner": "helm", "status": r.Status, "version": fmt.Sprint(r.Ver)}
 					if m[qk] != qv {
 						ok = false
 					}
 				}
-				if ok {
-					want = append(want, r)
+				if ok && e.bad {
+					damagedMatch = true
+				} else if ok {
+					want = append(want, e.rel)
 				}
 			}
 			if o.Kind == "query" && len(want) == 0 {
-				if got.Kind != "err" {
+				// with only damaged records matching, Helm answers with an empty list; the
+				// property does not say which of the two it should be
+				if got.Kind != "err" && !(damagedMatch && got.Kind == "rels" && len(got.Rels) == 0) {
 					bad(i, "query-empty: query with no match did not report not-found")
 				}
 				continue
@@ -496,23 +684,27 @@ func (*c10) CoqCase(ci, oi any) string {
 	var ops, outs []string
 	for _, o := range c.Ops {
 		switch o.Kind {
+		case "setns":
+			ops = append(ops, "CSetNs "+hx.CoqStr(o.NS))
+		case "corrupt":
+			ops = append(ops, fmt.Sprintf("CCorrupt %s %d %s", hx.CoqStr(o.Name), o.Ver, hx.CoqStr(o.Status)))
 		case "create":
-			ops = append(ops, "OCreate "+c10CoqRel(o.Rel))
+			ops = append(ops, "COp (OCreate "+c10CoqRel(o.Rel)+")")
 		case "update":
-			ops = append(ops, "OUpdate "+c10CoqRel(o.Rel))
+			ops = append(ops, "COp (OUpdate "+c10CoqRel(o.Rel)+")")
 		case "get":
-			ops = append(ops, fmt.Sprintf("OGet %s %d", hx.CoqStr(o.Name), o.Ver))
+			ops = append(ops, fmt.Sprintf("COp (OGet %s %d)", hx.CoqStr(o.Name), o.Ver))
 		case "delete":
-			ops = append(ops, fmt.Sprintf("ODelete %s %d", hx.CoqStr(o.Name), o.Ver))
+			ops = append(ops, fmt.Sprintf("COp (ODelete %s %d)", hx.CoqStr(o.Name), o.Ver))
 		case "list":
-			ops = append(ops, "OList")
+			ops = append(ops, "COp OList")
 		case "query":
 			keys := make([]string, 0, len(o.Query))
 			for k := range o.Query {
 				keys = append(keys, k)
 			}
 			sort.Strings(keys)
-			ops = append(ops, "OQuery "+hx.CoqStrMap(keys, o.Query))
+			ops = append(ops, "COp (OQuery "+hx.CoqStrMap(keys, o.Query)+")")
 		}
 	}
 	for _, o := range obs.Outs {
@@ -535,7 +727,24 @@ func (*c10) CoqCase(ci, oi any) string {
 	return fmt.Sprintf("mkCase %s %s %s", b, hx.CoqList(ops), hx.CoqList(outs))
 }
 
-func (*c10) Class(ci, _ any) string { return ci.(c10Case).Backend }
+func (*c10) Class(ci, _ any) string {
+	c := ci.(c10Case)
+	nss := map[string]bool{}
+	for _, o := range c.Ops {
+		switch {
+		case o.Kind == "corrupt":
+			return c.Backend + "+damaged-record"
+		case o.Kind == "setns":
+			return c.Backend + "+namespaces"
+		case o.Rel != nil:
+			nss[o.Rel.NS] = true
+		}
+	}
+	if len(nss) > 1 {
+		return c.Backend + "+namespaces"
+	}
+	return c.Backend
+}
 
 func (*c10) NonTrivial(ci, oi any) bool {
 	c, obs := ci.(c10Case), oi.(c10Obs)
